@@ -165,6 +165,9 @@ def retarget(F, ob, cfg):
             a = T[0].h_points()
             nd = K.det(a.dot(a.T))
             F.assume(F.or_(nd >= 0.05, nd <= -0.05))
+        base = al
+        base_state = {k_: K.snapshot(v) for k_, v in _state(base, cfg).items()}
+        base_target = K.snapshot(base.target.points)
         al = al.pseudoinverse()
         ob.true("pinv.class", type(al).__name__ == cfg["cls"])
         ob.eq("pinv.source", al.source.points, T[0].points)
@@ -198,6 +201,16 @@ def retarget(F, ob, cfg):
         ob.true("source.same_object", al.source is S)
     for i, t in enumerate(T):
         K.same_terms(F, ob, "passed_target%d.unchanged" % i, t_snaps[i], t.points)
+    if cfg.get("via") == "pinv":
+        # the alignment the pseudoinverse was taken from is a different object: retargeting one must not
+        # reach the other (both directions)
+        for name, v in _state(base, cfg).items():
+            K.same_terms(F, ob, "pinv.base.state." + name, base_state[name], v)
+        K.same_terms(F, ob, "pinv.base.target", base_target, base.target.points)
+        keep = {k_: K.snapshot(v) for k_, v in _state(al, cfg).items()}
+        base.set_target(T[-1])
+        for name, v in _state(al, cfg).items():
+            K.same_terms(F, ob, "pinv.derived.state_after_base_retarget." + name, keep[name], v)
     if original is not None:
         for name, v in _state(original, cfg).items():
             K.same_terms(F, ob, "original.state." + name, orig_state[name], v)
